@@ -3,7 +3,7 @@ import KoordVerif.Model.C10
 import KoordVerif.Model.C10Exec
 /-
 Driver for C10.  One op line per case (integer tokens):
-  budget <cap> <alloc> <annoKind> <annoResourcesCpu> <annoReservedCPUsCount> <thr> <hasMin> <min> <nodeUsed> <np> (<hasMeta> <qos> <kubeBE> <used>)* <na> (<qos> <base> <used>)*
+  budget <cap> <alloc> <annoKind> <annoResourcesCpu> <annoReservedCPUsCount> <annoApplyPolicy> <thr> <hasMin> <min> <nodeUsed> <np> (<hasMeta> <qos> <kubeBE> <used>)* <na> (<qos> <base> <used>)*
       -> budget <milli>
   policy <k> <n> (<cpu> <core> <socket> <node>)*
       -> cpus <c>*                      (order of the returned slice)
@@ -66,8 +66,8 @@ def sortDedup (xs : List Int) : List Int := (isortBy (fun a b => decide (a < b))
 /-- the budget op's tokens -> calculateBESuppressCPU's value and capacity. -/
 def evalBudget (xs : List Int) : Option (Int × Int) :=
   match xs with
-  | cap :: alloc :: annoKind :: annoRes :: annoCpus :: thr :: hasMin :: mn :: nodeUsed :: rest =>
-    let anno := annoReserved annoKind annoRes annoCpus
+  | cap :: alloc :: annoKind :: annoRes :: annoCpus :: annoPolicy :: thr :: hasMin :: mn :: nodeUsed :: rest =>
+    let anno := annoReservedP annoPolicy annoKind annoRes annoCpus
     match takeRecs 4 rest with
     | none => none
     | some (prs, rest2) =>
